@@ -258,12 +258,17 @@ pub fn run_worker<P: Prop>(tier: Tier, seed: u64, worker: usize, cases: u64) -> 
                 // shrink, keeping the same clause
                 let mut best = (case.clone(), msg.clone(), signature.clone());
                 let mut budget = P::shrink_budget();
+                // shrinking is also bounded in wall-clock time: a violation such as "background work
+                // does not settle" makes every run of the case slow, and a minimal case is a
+                // convenience, not part of the verdict
+                let shrink_t0 = std::time::Instant::now();
+                let shrink_limit = std::time::Duration::from_secs(if frag.violations.is_empty() { 60 } else { 20 });
                 'outer: while budget > 0 {
                     if !tree.simplify() {
                         break;
                     }
                     loop {
-                        if budget == 0 {
+                        if budget == 0 || shrink_t0.elapsed() > shrink_limit {
                             break 'outer;
                         }
                         budget -= 1;
@@ -285,14 +290,21 @@ pub fn run_worker<P: Prop>(tier: Tier, seed: u64, worker: usize, cases: u64) -> 
                 }
                 let (bcase, bmsg, bsig) = best;
                 // confirm from the shrunk case
-                let (need, of) = P::reruns();
+                let (need, mut of) = P::reruns();
                 let strict_ctx = Ctx { tier, strict: true, case_nr: i, worker, known: ctx.known.clone() };
                 let mut fails = 0;
-                for _ in 0..of {
+                let mut done = 0;
+                let confirm_t0 = std::time::Instant::now();
+                while done < of {
                     if let Outcome::Violation { clause: c2, .. } = P::run(&bcase, &strict_ctx) {
                         if c2 == clause {
                             fails += 1;
                         }
+                    }
+                    done += 1;
+                    // slow cases are confirmed with fewer re-runs (never fewer than needed to report)
+                    if confirm_t0.elapsed() > std::time::Duration::from_secs(40) && fails >= need {
+                        of = done;
                     }
                 }
                 let replay = write_replay::<P>(&bcase, &bsig, &bmsg, seed, worker);
